@@ -210,6 +210,15 @@ class State:
                 notify_vars[var_name] = getattr(notify_vars[f"{parts[0]}.{parts[1]}.old"], parts[3], None)
             elif 1 <= var_name.count(".") <= 3 and not cls.exist(var_name):
                 notify_vars[var_name] = None
+            elif 1 <= var_name.count(".") <= 2:
+                #
+                # it exists but hasn't been notified yet: use its value now, when the change is
+                # delivered, rather than whatever it is when the expression gets evaluated
+                #
+                try:
+                    notify_vars[var_name] = cls.get(var_name)
+                except (NameError, AttributeError):
+                    notify_vars[var_name] = None
         return notify_vars
 
     @classmethod
